@@ -145,6 +145,10 @@ pub fn diff_items(
     }
     let n_ref = rf.items.len();
     for k in 0..n_ref {
+        // after a statement-level error item an iteration that simply ends is accepted
+        if k > 0 && rf.soft_errors.contains(&(k - 1)) && matches!(real.steps.get(k).map(|s| &s.item), Some(RealItem::End)) {
+            return None;
+        }
         let Some(step) = real.steps.get(k) else {
             return Some(Finding::new(
                 "stream-short",
